@@ -88,6 +88,14 @@ pub fn cmd_hello(args: &[String]) -> i32 {
                     v["get_ciphers"] = Value::Array(h.get_ciphers().into_iter().map(suite).collect());
                     v
                 }
+                "new_dtls_client_hello" => {
+                    // a DTLS ClientHello built as a struct literal (the DTLS structure has no constructor): any random length
+                    let cookie = [9u8, 8, 7];
+                    let h = DTLSClientHello { version: TlsVersion(ver), random: &random, session_id: sid.as_deref(), cookie: &cookie,
+                                              ciphers: ciphers.iter().map(|x| TlsCipherSuiteID(*x)).collect(), comp: comp.iter().map(|x| TlsCompressionID(*x)).collect(),
+                                              ext: ext.as_deref() };
+                    trait_view(&h)
+                }
                 "parsed_dtls_client_hello" => {
                     let body = enc_client_hello(true, ver, &random, &sid, &ciphers, &comp, &ext);
                     let mut msg = vec![1u8, 0, (body.len() >> 8) as u8, body.len() as u8, 0, 0, 0, 0, 0, 0, (body.len() >> 8) as u8, body.len() as u8];
